@@ -231,13 +231,16 @@ impl FileHasher<'_> {
         log: &dyn Log,
     ) -> Result<FileHasher<'_>, Error> {
         // The way the program reads its input and delivers its output is a part of the transform:
+        // (separated by a character that cannot occur in a command line argument)
         let transform_id = transform.as_ref().map(|t| {
             let mut id = t.command_str.clone();
+            id.push('\0');
             if t.in_place {
-                id.push_str(" --in-place");
+                id.push_str("--in-place");
             }
+            id.push('\0');
             if !t.copy {
-                id.push_str(" --no-copy");
+                id.push_str("--no-copy");
             }
             id
         });
